@@ -233,10 +233,28 @@ def document_text(text, settings=None, title="T", module="M", tmpdir=None, encod
         holder = {}
 
         def go():
-            doc = Documenter(path, title, module, settings if settings is not None else make_settings())
+            st = settings if settings is not None else make_settings()
+            other = None
+            PIPELINE_STATS["documenter_calls"] = PIPELINE_STATS.get("documenter_calls", 0) + 1
+            if tmpdir is None and PIPELINE_STATS["documenter_calls"] % 4 == 1:
+                # the public API used by a program that prepares several documenters before it processes any of them: another
+                # Documenter (for another file) is constructed first and processed afterwards
+                op = os.path.join(d, "interloper.cmake")
+                if not os.path.exists(op):
+                    with open(op, "w") as f2:
+                        f2.write("#[[[\n# interloper doc line\n#]]\nfunction(interloper_fn_xyz a)\nendfunction()\ncpp_class(InterloperCls)\ncpp_end_class()\n")
+                other = Documenter(op, "InterloperT", "InterloperM", st)
+                PIPELINE_STATS["documenters_constructed_in_between"] = PIPELINE_STATS.get("documenters_constructed_in_between", 0) + 1
+            doc = Documenter(path, title, module, st)
             holder["doc"] = doc
+            first = other is not None and PIPELINE_STATS["documenter_calls"] % 8 == 1
+            if first:
+                other.process()          # (the other one is processed first every second time)
             w = doc.process()
-            return str(w)
+            text_ = str(w)
+            if other is not None and not first:
+                other.process()
+            return text_
         o = guarded(go)
         return o, holder.get("doc")
     finally:
